@@ -16,7 +16,7 @@ impl BoxedUint {
     /// Panics if `rhs` has a larger precision than `self`.
     #[inline(always)]
     pub fn sbb_assign(&mut self, rhs: impl AsRef<[Limb]>, mut borrow: Limb) -> Limb {
-        debug_assert!(self.bits_precision() >= (rhs.as_ref().len() as u32 * Limb::BITS));
+        assert!(self.bits_precision() >= (rhs.as_ref().len() as u32 * Limb::BITS));
 
         for i in 0..self.nlimbs() {
             let (limb, b) = self.limbs[i].sbb(*rhs.as_ref().get(i).unwrap_or(&Limb::ZERO), borrow);
